@@ -87,11 +87,32 @@ impl<'a> Gen<'a> {
                     8 => format!("{:o}", v),
                     _ => format!("{}", v),
                 };
+                // optionally a second prefix for the exactness, before or after the radix prefix,
+                // and a sign on the digits
+                let exactness = match self.rng.below(4) {
+                    0 if prefix != "#e" => Some("#e"),
+                    1 if prefix != "#e" => Some("#i"),
+                    _ => None,
+                };
+                let exactness_first = self.rng.chance(1, 2);
+                let negative = self.rng.chance(1, 4) && v > 0;
+                let digits = if negative { format!("-{}", digits) } else { digits };
                 self.depth += 1;
+                if let (Some(e), true) = (exactness, exactness_first) {
+                    self.push(e, "number-prefix");
+                }
                 self.push(prefix, "number-prefix");
+                if let (Some(e), false) = (exactness, exactness_first) {
+                    self.push(e, "number-prefix");
+                }
                 self.depth -= 1;
                 self.push(&digits, "number");
-                Dv::Int(v as i128)
+                let v = if negative { -(v as i128) } else { v as i128 };
+                if exactness == Some("#i") {
+                    Dv::Other(format!("float:{:?}", v as f64))
+                } else {
+                    Dv::Int(v)
+                }
             }
             3 => {
                 let whole = self.rng.range(0, 99);
@@ -252,9 +273,13 @@ pub fn wellformed(rng: &mut Rng) -> Rendered {
     }
 }
 
-const SOUP: [&str; 34] = [
+const SOUP: [&str; 62] = [
     "(", ")", "[", "]", "{", "}", "#(", "'", "`", ",", ".", "..", "...", "#t", "#f", "#\\", "#\\a", "#\\space", "#\\x", "#x", "#e", "#",
     "\"", "\"abc\"", "\"\\", ";", "; c\n", "1", "-", "+5", "1/2", "a", "λ", "\\",
+    // number-shaped and hash-shaped fragments: radix digits that start with a letter, fractions,
+    // exponents, upper case, long booleans, other prefixes, characters by scalar value
+    "a.8", "ff", "ff.4", "1e3", "1E3", "-F", "1A", ".AB", "+E", "e", "#i", "#b", "#o", "#d", "#X", "#E", "#true", "#false", "#tr", "#fa",
+    "#\\x41", "#\\x", "#\\λ", "10", "-1", "/", "|", "#;",
 ];
 
 pub fn token_soup(rng: &mut Rng) -> String {
